@@ -411,6 +411,9 @@ class Evaluator:
                 return env[node.id]
             if node.id in ('True', 'False', 'None'):
                 return const_av({'True': True, 'False': False, 'None': None}[node.id])
+            mod = getattr(self, 'module_consts', {})
+            if node.id in mod:
+                return self.ev(mod[node.id], {})            # a module-level table / constant of the copy
             return AV('other', val=('name', node.id))
         if isinstance(node, ast.IfExp):
             return self.ev(node.body, env) if truth(self.ev(node.test, env)) else self.ev(node.orelse, env)
@@ -475,6 +478,8 @@ class Evaluator:
                 except Exception:
                     pass
             raise Unknown('arithmetic')
+        if isinstance(node, ast.Dict) and all(k is not None for k in node.keys):
+            return AV('dict', items=tuple(AV('tuple', items=(self.ev(k, env), self.ev(v, env))) for k, v in zip(node.keys, node.values)))
         if isinstance(node, ast.Lambda):
             return AV('func', val=('lambda', node, env))
         if isinstance(node, ast.Yield):
